@@ -80,9 +80,17 @@ var wellFormed = ev.Register(&ev.P[yearCase]{
 			if y+n < 1 || y+n > 9998 {
 				continue
 			}
-			nx := ly.Next(n)
-			if nx.GetYear() != y+n || fmt.Sprint(tableOfYear(nx)) != fmt.Sprint(tableOf(y+n)) {
-				return fmt.Errorf("year %d: LunarYear.Next(%d) is not the table of year %d", y, n, y+n)
+			// the table of the target year is taken BEFORE the step, from a cleared cache, and the source year is rebuilt
+			// (a step may compute its result from the receiver and leave it in the year cache)
+			calendar.VerifResetYearCache()
+			wantTable := fmt.Sprint(tableOf(y + n))
+			src := calendar.NewLunarYear(y)
+			nx := src.Next(n)
+			if nx.GetYear() != y+n || fmt.Sprint(tableOfYear(nx)) != wantTable {
+				return fmt.Errorf("year %d: LunarYear.Next(%d) is not the table of year %d: %v vs %s", y, n, y+n, tableOfYear(nx), wantTable)
+			}
+			if after := fmt.Sprint(tableOf(y + n)); after != wantTable {
+				return fmt.Errorf("year %d: after LunarYear.Next(%d) the table of year %d reads %s, before the step it read %s", y, n, y+n, after, wantTable)
 			}
 			direct := calendar.NewLunarYear(y + n)
 			if nx.GetGanZhi() != direct.GetGanZhi() || nx.GetGanZhi() != ref.Pair(ref.YearPillar(y+n)) || nx.GetGanIndex() != direct.GetGanIndex() || nx.GetZhiIndex() != direct.GetZhiIndex() ||
